@@ -207,7 +207,7 @@ fn run_case(idx: usize, line: &str, dir: &str, stage_bin: &str, out: &mut Out) {
     let mut got_err: Option<Vec<u8>> = None;
     let mut status: Option<ExitStatus> = None;
     CUR.store(idx as u64, SeqCst);
-    DEADLINE_MS.store(now_ms() + 8000, SeqCst);
+    DEADLINE_MS.store(now_ms() + 5000, SeqCst);
     unsafe { trace::VERBOSE_WAIT = true };
     trace::start(&[], false);
     let t0 = Instant::now();
